@@ -29,6 +29,7 @@ def run(ctx):
     rule_sig(ctx, F)
     rule_sort(ctx, F)
     rule_labels(ctx, F)
+    rule_scratch(ctx, F)
 
 
 def _tokens(b, F, depth=0):
@@ -194,3 +195,50 @@ def rule_labels(ctx, F):
             okl = a[0] == "call" and a[5] == c[0][0] and "owner" in show(a)
         ctx.ob(R, sb, "signer's Labels field = owner.rrsig_label_count()", okl,
                "the Labels field of the RRSIG must be computed from the RRset owner")
+
+
+# ---------------------------------------------------------------------------
+# the octets handed to the signing primitive are this RRset's signed data only
+# ---------------------------------------------------------------------------
+
+def rule_scratch(ctx, F):
+    """sign_sorted_rrset_in composes the signed data into a caller-provided,
+    reused scratch buffer.  The buffer must be emptied on every path *before*
+    the first octet is composed into it (clearing it afterwards leaves stale
+    octets behind whenever the function leaves early, e.g. when sign_raw
+    fails), and what is signed is that buffer."""
+    R = "C12.scratch"
+    ctx.floor(R, 2)
+    bs = [b for p, b in F.bodies.items() if re.match(r"^dnssec::sign::signatures::rrsigs::sign_sorted_rrset_in$", p)]
+    if not ctx.anchor(R, "sign_sorted_rrset_in", len(bs) == 1):
+        return
+    b = bs[0]
+    params = [i for i in range(1, b.nargs + 1) if re.match(r"^&mut alloc::vec::Vec<u8>$", b.locals[i])]
+    if not ctx.anchor(R, "scratch buffer parameter (&mut Vec<u8>)", len(params) == 1, b.where()):
+        return
+    sp = params[0]
+
+    def on_scratch(op):
+        tt = deep_strip(b.term_of_operand(op))
+        return any(s == ("arg", sp) for s in walk(tt))
+    clears, writes, signs = [], [], []
+    for bi, t in b.calls():
+        fn = t["fn"] or ""
+        if not t["args"]:
+            continue
+        if re.search(r"Vec::<.*>::(clear|truncate)$", fn) and on_scratch(t["args"][0]):
+            clears.append(bi)
+        elif re.search(r"::(compose_canonical|compose|compose_canonical_rdata|append_slice|extend_from_slice|push)$", fn) \
+                and any(on_scratch(a) for a in t["args"]):
+            writes.append(bi)
+        elif fn.endswith("SignRaw::sign_raw") and any(on_scratch(a) for a in t["args"]):
+            signs.append(bi)
+    ctx.anchor(R, "signed data composed into the scratch buffer", len(writes) >= 2, b.where())
+    ctx.ob(R, b, "scratch buffer emptied before the signed data is composed",
+           bool(clears) and all(any(b.dominates(c, w) for c in clears) for w in writes),
+           "sign_sorted_rrset_in composes the signed data into the caller's scratch buffer without first clearing "
+           "it on every path (clear sites: %d): octets left over from an earlier call — e.g. one that returned "
+           "early because sign_raw failed — are signed along with this RRset" % len(clears))
+    ctx.ob(R, b, "the scratch buffer is what gets signed", len(signs) == 1 and any(b.dominates(w, signs[0]) for w in writes)
+           and all(signs[0] in b.reach_from(w) for w in writes),
+           "sign_raw is not called on the scratch buffer after all signed data was composed into it")
